@@ -26,7 +26,7 @@ MANIFEST = {
             "are read back by compiled probes / attribute reads and compared with the DSDL model: extent, buffer size, names and "
             "versions, port-IDs, array capacities, union option counts, every constant (integers exact and with the right sign as an "
             "expression; floats within one ULP of the correctly rounded rational). Maximal values are serialized into buffers of "
-            "every size 0..max+1: exactly the sizes >= max succeed, the reported size never exceeds the advertised bound.",
+            "every size 0..max+1: exactly the sizes >= max succeed, the reported size never exceeds the advertised bound, also under the option-specific fast paths (target_endianness little/big, asserts off). A regeneration twin (same interpreter generates a namespace and then an edited version with equal names, versions and sizes) must carry the second definition's constants, port-IDs and field names everywhere, including the model embedded in Python modules.",
     "note": "Representation of constants (macro vs constexpr, suffixes) is not judged; Python float constants are compared as doubles. Types whose "
             "probe does not compile are skipped and counted (a C06 matter); >10% skipped makes the run inconclusive.",
 }
